@@ -168,3 +168,21 @@ func VerifAppendInt() {
 	vAssert(string(out) == string(want), "appendint-differs")
 	vReach("appendint")
 }
+
+// VerifPow10Tables: the package's power-of-ten tables hold exactly 10^i (every entry, concrete sweep
+// like the ToHash table sweeps): AppendDecimal, ParseDecimal and ParseFloat index them directly.
+func VerifPow10Tables() {
+	p := int64(1)
+	for i := range int64pow10 {
+		vAssert(int64pow10[i] == p, "int64pow10-entry")
+		p *= 10
+	}
+	vAssert(len(int64pow10) == 19, "int64pow10-length")
+	f := 1.0
+	for i := range float64pow10 {
+		vAssert(float64pow10[i] == f, "float64pow10-entry")
+		f *= 10 // exact up to 1e22
+	}
+	vAssert(len(float64pow10) == 23, "float64pow10-length")
+	vReach("tables")
+}
